@@ -22,19 +22,15 @@ CONSTANTS MaxEntries,  \* entries per namespace
           Modes,       \* consistency modes of the object: subset of {"lazy", "always"}
           Dump         \* "none" | "hist" | "edges"
 
-MCNames   == {"a", "b", "l"}
-MCAllBlobs == {"z", "s", "t", "e", "o", "q", "cat"}
-MCBlobs   == UseBlobs \cup {"cat"}
-MCTargets == {"t1"}
-MCCode == [n \in MCNames |->
-    CASE n = "a" -> [iso |-> <<65,65,46,59,49>>, rr |-> <<97,97>>, jol |-> <<97,97>>, udf |-> <<97,97>>]
-      [] n = "b" -> [iso |-> <<66,66>>, rr |-> <<98,98>>, jol |-> <<98,98>>, udf |-> <<98,98>>]
-      [] n = "l" -> [iso |-> <<76,79,78,71,78,65,77,69,57,46,59,49>>,
-                     rr |-> <<108,111,110,103,110,97,109,101,57>>,
-                     jol |-> <<108,111,110,103,110,97,109,101,57>>,
-                     udf |-> <<108,111,110,103,110,97,109,101,57>>]]
-MCBlobLen == [b \in MCAllBlobs |-> CASE b = "z" -> 0 [] b = "s" -> 1 [] b = "t" -> 2 [] b = "e" -> 2048
-                                        [] b = "o" -> 2049 [] b = "q" -> 4096 [] b = "cat" -> 2048]
+\* the realisation table (names, code points, blob lengths) is a literal module generated per run
+\* from spec/<table>.names.json (harness/gen.py), the same table the replayer uses
+T == INSTANCE CoreTables
+MCNames    == T!TabNames
+MCTargets  == T!TabTargets
+MCCode     == T!TabCode
+MCAllBlobs == T!TabBlobs \cup {"cat"}
+MCBlobs    == UseBlobs \cup {"cat"}
+MCBlobLen  == [b \in MCAllBlobs |-> IF b = "cat" THEN 2048 ELSE T!TabBlobLen[b]]
 
 VARIABLES st, h, nref, nsched
 
@@ -83,7 +79,8 @@ CandsOf(s) ==
    \cup UNION {{[a |-> x, ns |-> n, p |-> p] : x \in {"SetHidden", "ClearHidden"}, p \in Known(Tree(s, n))} :
             n \in {ns \in {"iso", "jol"} : HasNs(s, ns)}}
    \cup (IF Boot
-         THEN {[a |-> "AddEltorito", boot |-> bp, cat |-> c] : bp \in Known(s.iso), c \in {q \in Paths : Len(q) = 1}}
+         THEN {[a |-> "AddEltorito", boot |-> bp, cat |-> c, media |-> md] :
+                  bp \in Known(s.iso), c \in {q \in Paths : Len(q) = 1}, md \in {"noemul", "floppy", "bogus"}}
               \cup {[a |-> "RmEltorito"]}
               \cup {[a |-> "AddHardLink", ons |-> "bootcat", old |-> NoPath, nns |-> n, new |-> q] : n \in nss, q \in Paths}
          ELSE {})
@@ -153,9 +150,10 @@ Schedule == /\ st.phase = "live" /\ Len(h) <= MaxLen /\ nsched < MaxSched
             /\ nsched' = nsched + 1
             /\ UNCHANGED nref
 
+\* same = TRUE: close() and open_fp() on the same PyCdlib object; FALSE: a fresh object
 Reopen == /\ st.phase = "live" /\ Len(h) <= MaxLen /\ st.gen < MaxGen
           /\ st' = Step(st, [a |-> "Reopen"]).acc
-          /\ h' = Append(h, [a |-> "Reopen"])
+          /\ \E same \in BOOLEAN : h' = Append(h, [a |-> "Reopen", same |-> same])
           /\ UNCHANGED <<nref, nsched>>
 
 Next == DoNew \/ Accept \/ Reject \/ Schedule \/ Reopen
